@@ -190,6 +190,18 @@ for c in ('kex', 'key', 'enc', 'mac'):
             l = clean(notes_of(lf, c, n))
             if l != t:
                 fail(inp, {'lookup': l}, {'text': t}, 'lookup')
+# --lookup of a name the database does not know: listed as unknown, never passed over in silence, and the lookup does not end with status 0
+for names in (['no-such-alg@example.com'], ['curve25519-sha256', 'no-such-alg@example.com'], ['no-such-alg@example.com', 'aes128-ctr', 'another-unknown'], ['AES128-CTR-X']):
+    cases += 1
+    H.fresh_tables()
+    out_ = OutputBuffer(); out_.use_colors = False
+    with contextlib.redirect_stdout(io.StringIO()):
+        rv = sa.algorithm_lookup(out_, ','.join(names))
+    txt = out_.get_buffer()
+    unk = [n for n in names if not any(n in DB[c] for c in DB)]
+    sect = txt.split('# unknown algorithms')[1].split('#')[0] if '# unknown algorithms' in txt else ''
+    if rv == 0 or any(n not in sect.split() for n in unk):
+        fail({'lookup': names}, {'status': rv, 'listed as unknown': [n for n in unk if n in sect.split()]}, {'status': 'not 0', 'listed as unknown': unk}, 'lookup-unknown')
 # the same names among neighbours, in other positions, audited as a client
 for pi, p in enumerate(peers()[:-6] + random_peers(db_only=True)):
     for role in ('server', 'client'):
